@@ -27,6 +27,8 @@ export const STATEMENTS = {
   mergeProps: (N) => `export const ${N} = () => <div {...g2} class="k" class={g0} />;`,
   vslotsFn: (N) => `export const ${N} = () => <A0 v-slots={{ x: () => [g0] }}>{() => [f0()]}</A0>;`,
   textAndPragmaLike: (N) => `export const ${N} = () => <div>  a  {g0} b </div>;`,
+  boundTagParam: (N) => `import ${N}_C from "probe:kid";\nexport function ${N}(Pq = ${N}_C) { return <Pq x={g0}>t</Pq>; }`,
+  reassignTwiceInner: (N, inner = '') => `export function ${N}(cell = "prev") {\n  ${inner.before ?? ''}\n  cell = <A0>{cell}</A0>;\n  cell = <B0>{cell}</B0>;\n  ${inner.after ?? ''}\n  return cell;\n}`,
   reassignParamInner: (N, inner = '') => `export function ${N}(cell = "prev") {\n  ${inner.before ?? ''}\n  cell = <A0>{cell}</A0>;\n  ${inner.after ?? ''}\n  return cell;\n}`,
   slotTempInner: (N, inner = '') => `export function ${N}() {\n  ${inner.before ?? ''}\n  const r = <A0>{f0()}</A0>;\n  ${inner.after ?? ''}\n  return r;\n}`,
   identLetInner: (N, inner = '') => `export function ${N}() {\n  let a = "A";\n  ${inner.before ?? ''}\n  const r = <A0>{a}</A0>;\n  ${inner.after ?? ''}\n  return r;\n}`,
@@ -37,6 +39,11 @@ export const DISTRACTORS = {
   assignSameNameOtherScope: (k) => `function d${k}a() { let a = 1; a = 2; return a; }`,
   assignSameNameArrow: (k) => `const d${k}b = (a) => { a = 3; return a; };`,
   assignOther: (k) => `let d${k}z = 0;\nd${k}z = 5;`,
+  sameTagBoundInFn: (k) => `function d${k}w(Foo, A0, B0) { return [<Foo />, <A0>x</A0>, <B0 />]; }`,
+  sameTagBoundConst: (k) => `const d${k}y = () => { const Foo = 1, A0 = 2, KeepAlive = 3; return [<Foo a="1" />, <A0 />, <KeepAlive />]; };`,
+  sameTagUnboundUse: (k) => `const d${k}aa = () => [<Pq />, <Pq>t</Pq>];`,
+  snapshotLikeUserNames: (k) => `var _s0_x = "u0", _s1_x = "u1", _cell = "uc", _a = "ua", _s0_a = "ub";\nconst d${k}ab = [_s0_x, _s1_x, _cell, _a, _s0_a];`,
+  lateImports: (k) => `import d${k}late from "probe:kid";\nimport { ref as d${k}ref } from "vue";`,
   assignJsxSameNameOtherScope: (k) => `function d${k}s() { let a; a = <div>x</div>; return a; }`,
   assignParenJsxSameNameOtherScope: (k) => `function d${k}t() { let a; a = (\n    <div>hello</div>\n  ); return a; }`,
   assignCompJsxSameNameOtherScope: (k) => `function d${k}u(a, kid) { a = <B9>two{g8}</B9>; kid = (<B9><i/><i/></B9>); return [a, kid]; }`,
